@@ -1,0 +1,20 @@
+//go:build verif
+// +build verif
+
+package fastgo
+
+import "github.com/intel/fastgo/internal/cpu"
+
+// VerifSetArchLevel (build tag "verif" only) switches the acceleration level
+// at run time and returns the previous one. Only code paths that re-read the
+// level on every call (the Reader's decode dispatch) honour it faithfully;
+// Writers cache an encoder at init time and must be tested one process per
+// level instead.
+func VerifSetArchLevel(level int) (old int) {
+	old = cpu.ArchLevel
+	cpu.ArchLevel = level
+	return old
+}
+
+// VerifArchLevel reports the acceleration level currently in effect.
+func VerifArchLevel() int { return cpu.ArchLevel }
